@@ -391,7 +391,7 @@ func propC06(c *Check) {
 	c.Rule("R1", "who may pop: the two dequeue functions are reachable only through goat Keeper.Dequeue (proposal building) and VerifyDequeue (proposal checking, NewEthBlock); in tx context only via NewEthBlock; never from block hooks, other handlers or queries")
 	c.Rule("R2", "pop shape: every emitted system tx uses the current nonce and is paired with nonce+1; queue lists are consumed F[n] for n=0,1,… under n<len && cap and re-sliced F[n:] with the same n; queue and nonce are stored on every success path that emitted; block-hash cursor advances by one iff a hash tx is emitted")
 	c.Rule("R3", "append-only heights: a batch must start at tip+1, hashes are stored at consecutive heights, the tip becomes the last height; BlockHashes/BlockTip have no other runtime writer and no Remove")
-	c.Rule("R4", "verification: extra-data length and count guards; expected txs come from the same two dequeue functions in the same order as Dequeue; each compared byte-for-byte; the count reaches zero")
+	c.Rule("R4", "verification: in NewEthBlock it precedes the processing of the payload's own requests; extra-data length and count guards; expected txs come from the same two dequeue functions in the same order as Dequeue; each compared byte-for-byte; the count reaches zero")
 	c.Rule("R5", "queue writers: other writers of the queues only append at the tail")
 
 	cg := p.CG()
@@ -566,6 +566,17 @@ func propC06(c *Check) {
 			c.Held("R4", "order bitcoin→locking @ "+FuncKey(f), p.InstrPos(b[0]), "")
 		} else {
 			c.Violated("R4", "order bitcoin→locking @ "+FuncKey(f), p.Pos(f.Pos()), "the two module queues are not popped once each in the order bitcoin, locking")
+		}
+	}
+	// "the ones due at that point": the finalising handler compares the payload's system txs with the queues as they
+	// were when the payload was built and voted on, i.e. before this payload's own requests append to them
+	{
+		neb := p.MustFn("x/goat/keeper.msgServer.NewEthBlock")
+		procs := p.FindCalls(neb, `^(LockingKeeper|BitcoinKeeper|RelayerKeeper)\.Process\w+Request\(`)
+		if len(procs) == 0 {
+			c.Violated("R4", "dequeue-verified-before-requests @ "+FuncKey(neb), p.Pos(neb.Pos()), "request processors not found reason=not-established")
+		} else {
+			c.RequireFact(neb, "R4", "dequeue-verified-before-requests", `^\(Keeper\.VerifyDequeue\(.*\) == nil\)$`, instrSet(callInstrs(procs)), "processing the payload's requests (which append to the queues)")
 		}
 	}
 	// Dequeue returns btc txs then locking txs, each marshalled in order
